@@ -284,7 +284,7 @@ def decorate(g, rnd, typed=0.25, dflt=0.25, vtypes=True, strings=0.2, ctx=0.0):
                 if txt not in used and not any(u.startswith(txt) or txt.startswith(u) for u in used if len(u) > 1):
                     used.discard(t.text); used.add(txt); g.terms[j] = Term('s', txt, t.prec, t.assoc); break
         if rnd.random() < typed:
-            g.terms[j].typed = True
+            g.terms[j].typed = True if rnd.random() < 0.8 else 'n'      # 'n': functor create<no_type>{} (value type term_value<no_type>)
     for i, r in enumerate(g.rules):
         vt = g.vtypes[r.lhs]
         if rnd.random() < dflt:
@@ -399,7 +399,7 @@ def to_custom_lexer(g, rnd):
     term = [-1] * 256; ln = [1] * 256
     for j, t in enumerate(g.terms):
         ch = t.text[0]
-        g.terms[j] = Term('k', t.text, t.prec, t.assoc, name=t.display(), typed=True)
+        g.terms[j] = Term('k', t.text, t.prec, t.assoc, name=t.display(), typed=(True if rnd.random() < 0.75 else 'n'))
         term[ord(ch)] = j; ln[ord(ch)] = rnd.choice([1, 1, 1, 1, 2, 3])
     for b in rnd.sample(range(256), rnd.choice([0, 2, 6])):
         if term[b] < 0 and b not in b'\t\n\x0b\x0c\r ': term[b] = rnd.randrange(len(g.terms)); ln[b] = rnd.choice([1, 2, 4])
